@@ -156,3 +156,19 @@ class ModuleState(object):
                     v[:] = fresh
                 else:
                     v.clear(); v.update(fresh)
+
+
+def untraced(fn, *args):
+    """Runs fn on realised (concrete) arguments with CrossHair's tracer switched off.  Used where every parameter is a
+    structure parameter: CrossHair forks once per value combination (the verdict "Confirmed over all paths" still
+    means every combination was executed), and the concrete work is not interpreted opcode by opcode."""
+    try:
+        from crosshair.tracers import NoTracing, is_tracing
+        from crosshair.core import realize
+    except ImportError:
+        return fn(*args)
+    if not is_tracing():
+        return fn(*args)
+    real = [realize(a) for a in args]
+    with NoTracing():
+        return fn(*real)
